@@ -15,7 +15,7 @@ import (
 func init() {
 	register("C05",
 		"that the change-overs happen at the right instants (the term instants themselves are numeric), the 60-cycle continuity of the day pillar (numeric in the Julian Day), and the parity coupling of stem and branch (AX-PARITY).",
-		r05_1, r05_2, r05_3, r05_4, r05_5, r04_2, r11_2)
+		r05_1, r05_2, r05_3, r05_4, r05_5, r05_6, r04_2, r11_2)
 }
 
 var pillarIndexField = regexp.MustCompile(`(?i)(gan|zhi)index`)
@@ -288,20 +288,3 @@ func boundaryAtoms(c *Ctx, fn *ssa.Function) []string {
 	return out
 }
 
-func r05_4(c *Ctx, r *Report) {
-	const rule = "R05.4"
-	r.rule(rule, "Change-over boundaries are half-open. computeYear moves to the previous year pillar when the civil day / instant is strictly before Lichun (<) and to the next one when it is at or after it (>=), once for the day-level and once for the exact variant; computeMonth's term intervals are [start, end): the search stops when now >= start and now < end, once per variant. So the Lichun day, the Jie day and the exact instants themselves belong to the new pillar.")
-	want := map[string][]string{
-		"calendar.computeYear":  {"Ymd <", "Ymd >=", "YmdHms <", "YmdHms >="},
-		"calendar.computeMonth": {"Ymd <", "Ymd >=", "YmdHms <", "YmdHms >="},
-	}
-	for _, name := range []string{"calendar.computeMonth", "calendar.computeYear"} {
-		fn := c.Fn(r, rule, name)
-		if fn == nil {
-			continue
-		}
-		got := boundaryAtoms(c, fn)
-		r.check(equalStrs(got, want[name]), rule, name+" boundary comparisons are < start-of-next and >= start", c.fnPos(fn),
-			fmt.Sprintf("typed comparison atoms found %v, required %v: with <= or > the boundary day/instant itself is assigned to the old pillar", got, want[name]))
-	}
-}
